@@ -240,7 +240,8 @@ def read_hist(pt):
         d = {}
         for name, lst in o.time_variables.items():
             if name == 'pwm':
-                d['pwm'] = [num_s(x) for x in lst]
+                d['pwm'] = [num_s(x) if (x is None or isinstance(x, (int, float))) else '0' for x in lst]
+                kinds_ok = kinds_ok and all(x is None or isinstance(x, (int, float)) for x in lst)
                 continue
             kind = KIND_OF_VAR[name]
             vals = []
@@ -249,7 +250,10 @@ def read_hist(pt):
                     vals.append(N)
                     continue
                 if type(x).__name__ != kind and not (kind == 'AngularPosition' and type(x).__name__ == 'Angle'):
+                    # a sample of ANOTHER kind in this history (RectKinds fails): the record keeps a 0 in its place so that the other clauses stay evaluable
                     kinds_ok = False
+                    vals.append('0')
+                    continue
                 vals.append(si_of(x, kind))
             d[KEY[name]] = vals
         hist.append(d)
